@@ -22,7 +22,8 @@ FIX_COMMITS = ["d6ae502 (passive start-up cancellation: port/listener leak)",
                "732de19 (Throttle.wait helper tasks outlived a cancelled transfer / Server.close())",
                "5b1a18b (LIST line without a name silently dropped as a '.' entry)",
                "e5905ae (QUIT from a peer that does not read held the session for ever)",
-               "e0f7c47 (control connection accepted just before Server.close() survived the close)"]
+               "e0f7c47 (control connection accepted just before Server.close() survived the close)",
+               "1dce1fd (ABOR before the transfer worker's first step killed the session)"]
 
 # dimensions added after the fourth wave of seeded changes (plug-in APIs as part of the input space)
 EXTRA = {
@@ -50,7 +51,7 @@ EXTRA = {
     "C12": " Also on a speed-limited server and with a suspending user manager, with additional cuts placed before every "
            "advance of virtual time (the server sleeps in a throttle pause or a slow backend call); the clock is frozen at "
            "the cut itself.",
-    "C14": " Also with a second data connection opened in advance for the next transfer just before the ABOR, and that "
+    "C14": " Also on the executor-based backend (ABOR racing with file operations in flight). Also with a second data connection opened in advance for the next transfer just before the ABOR, and that "
            "transfer then run without a new PASV.",
     "C16": " Also with a user manager whose logout notification takes 5 s: the sockets must still be released at the bound; "
            "and sessions that end with QUIT (alone or pipelined behind other commands) from a peer that does not read.",
